@@ -26,9 +26,9 @@ pub struct Family {
 pub fn families() -> Vec<Family> {
     let base = Program { budget: 6, w_stream: 0, w_future: 0, w_call: 0, w_yield: 1, w_spawn: 0, w_keep: 0, w_cell: 0, w_nested: 0, w_move: 0, w_pause: 2, w_foreign: 0, depth: 0, tracked: true, guest_pairs: true };
     let mut v = vec![];
-    v.push(Family { name: "streams", property: "C19", prog: Program { w_stream: 8, w_yield: 1, ..base.clone() }, max_tasks: 2, block_on: true, cancel: true, cells: false, faults: true });
-    v.push(Family { name: "futures", property: "C20", prog: Program { w_future: 8, w_yield: 1, ..base.clone() }, max_tasks: 2, block_on: true, cancel: true, cells: false, faults: true });
-    v.push(Family { name: "subtasks", property: "C21", prog: Program { w_call: 8, w_yield: 1, ..base.clone() }, max_tasks: 2, block_on: true, cancel: true, cells: false, faults: true });
+    v.push(Family { name: "streams", property: "C19", prog: Program { w_stream: 8, w_yield: 1, w_foreign: 1, ..base.clone() }, max_tasks: 2, block_on: true, cancel: true, cells: false, faults: true });
+    v.push(Family { name: "futures", property: "C20", prog: Program { w_future: 8, w_yield: 1, w_foreign: 1, ..base.clone() }, max_tasks: 2, block_on: true, cancel: true, cells: false, faults: true });
+    v.push(Family { name: "subtasks", property: "C21", prog: Program { w_call: 8, w_yield: 1, w_foreign: 1, ..base.clone() }, max_tasks: 2, block_on: true, cancel: true, cells: false, faults: true });
     v.push(Family { name: "exec", property: "C22", prog: Program { w_stream: 2, w_future: 2, w_call: 2, w_yield: 4, w_spawn: 3, w_keep: 1, w_nested: 1, w_pause: 3, ..base.clone() }, max_tasks: 3, block_on: true, cancel: true, cells: false, faults: true });
     v.push(Family { name: "wake", property: "C23", prog: Program { w_stream: 1, w_call: 1, w_yield: 2, w_keep: 3, w_cell: 6, w_spawn: 1, ..base.clone() }, max_tasks: 3, block_on: false, cancel: true, cells: true, faults: true });
     v.push(Family { name: "mixed", property: "C18", prog: Program { w_stream: 4, w_future: 3, w_call: 3, w_yield: 1, w_spawn: 1, w_keep: 1, w_cell: 2, w_nested: 2, w_move: 4, w_pause: 2, w_foreign: 2, ..base.clone() }, max_tasks: 3, block_on: true, cancel: true, cells: true, faults: true });
@@ -71,7 +71,9 @@ fn guest_call<R>(tid: usize, f: impl FnOnce() -> R) -> R {
     wwith(|w| {
         w.gseq += 1;
         let g = w.gseq;
-        w.tasks.entry(tid).or_default().cb_enter = g;
+        let t = w.tasks.entry(tid).or_default();
+        t.prev_cb_enter = t.cb_enter;
+        t.cb_enter = g;
     });
     with(|h| h.enter(tid));
     let r = ledger::guest(f);
@@ -591,8 +593,11 @@ fn after_callback(tid: usize, code: u32, event: u32) {
                 }
             } else {
                 // FuturesUnordered yields once by itself after polling all of its
-                // futures; only YIELDs that no wake explains count
-                let cb_enter = wwith(|w| w.tasks.get(&tid).map(|t| t.cb_enter).unwrap_or(0));
+                // futures; only YIELDs that no wake explains count. A wake explains the
+                // YIELD of the callback it arrives in and of the next one: a child woken
+                // between two callbacks (or late in one) sits in the ready queue, is
+                // polled by the next callback, and that poll ends in the self-yield.
+                let cb_enter = wwith(|w| w.tasks.get(&tid).map(|t| t.prev_cb_enter).unwrap_or(0));
                 if lw > cb_enter {
                     with(|h| h.tasks[tid].yields_in_row = 0);
                 }
